@@ -2212,7 +2212,7 @@ impl<'a> Visitor<'a> {
             return Ok(ArgumentResult {
                 positional,
                 named,
-                separator: ListSeparator::Undecided,
+                separator,
                 span: arguments.span,
                 touched: BTreeSet::new(),
             });
@@ -2346,7 +2346,7 @@ impl<'a> Visitor<'a> {
                         if evaluated.separator == ListSeparator::Undecided {
                             ListSeparator::Comma
                         } else {
-                            ListSeparator::Space
+                            evaluated.separator
                         },
                     ));
 
